@@ -19,6 +19,7 @@ CONSTANTS
   BroadcastDedup = TRUE
   FIX_PruneEmpty = TRUE
   AllowLate = TRUE
+  AtomicCheck = FALSE
   FlipAccounts = {"A", "B"}
   Self = "A"
   LocalPats = {}
